@@ -592,15 +592,15 @@ where
         };
 
         if req.claimed {
+            // There is no entry if the end was dropped while its claim was still in flight and the
+            // broker then refused the claim.
             match req.end {
                 ChannelEnd::Sender => {
-                    let contained = self.senders.remove(&req.cookie);
-                    debug_assert!(contained.is_some());
+                    self.senders.remove(&req.cookie);
                 }
 
                 ChannelEnd::Receiver => {
-                    let contained = self.receivers.remove(&req.cookie);
-                    debug_assert!(contained.is_some());
+                    self.receivers.remove(&req.cookie);
                 }
             }
         }
